@@ -268,24 +268,30 @@ def growBy (L l : Nat) : Nat :=
   let al := if l > 4194304 then 4194304 else l
   if L > 0 ∧ l + al > L then L - l else al
 
+/-- allocator contract at one read: the capacity is at least what was asked for, and unchanged while the
+    buffer was not reallocated -/
+def capOk (st : RdStep) (need : Nat) (same : Option Nat) : Bool :=
+  decide (st.cap ≥ need) && (match same with | some c => st.cap == c | none => true)
+
+/-- reader contract at one read into `k` free bytes with `r` bytes of output left: no more than offered, no more
+    than there is, and never "nothing, no error" on a non-empty buffer (where the Go loop would spin) -/
+def readOk (st : RdStep) (k r : Nat) : Bool :=
+  decide (st.n ≤ k) && decide (st.n ≤ r) && !(st.n == 0 && st.st == 0 && decide (k > 0))
+
 /-- the loop of readAll. `buf` read so far, `rest` what the inflater still has, `need` the least capacity the
     allocator owes us, `same` = some c when the buffer was not reallocated since the last read (capacity must be c). -/
 def readLoop (L : Nat) : List RdStep → Bytes → Bytes → Nat → Option Nat → RA
   | [], _, _, _, _ => .stuck
   | st :: steps, buf, rest, need, same =>
-    if st.cap < need || (match same with | some c => st.cap != c | none => false) then .stuck else
     let e := clampEnd L st.cap
-    let k := e - buf.length
-    if st.n > k || st.n > rest.length || (st.n == 0 && st.st == 0 && k > 0) then .stuck else
-    let buf := buf ++ rest.take st.n
-    let rest := rest.drop st.n
-    if st.st == 1 then .ok buf
+    if (capOk st need same && readOk st (e - buf.length) rest.length) = false then .stuck else
+    let buf' := buf ++ rest.take st.n
+    if st.st == 1 then .ok buf'
     else if st.st != 0 then .failed
-    else if buf.length == e then
-      let l := buf.length
-      if L > 0 ∧ l + 1 > L then probe buf steps
-      else readLoop L steps buf rest (l + growBy L l) none
-    else readLoop L steps buf rest need (some st.cap)
+    else if buf'.length == e then
+      if L > 0 ∧ buf'.length + 1 > L then probe buf' steps
+      else readLoop L steps buf' (rest.drop st.n) (buf'.length + growBy L buf'.length) none
+    else readLoop L steps buf' (rest.drop st.n) need (some st.cap)
 
 /-- `readAll(r, size)` -/
 def readAll (L size : Nat) (o : InflObs) : RA :=
